@@ -174,6 +174,32 @@ claim("C08",
       "numbers is not decided.",
       _KERNEL_NOTE + " Hermiticity of -i grad and -i r x grad in exact arithmetic.", "DESIGN.md 2.2, 2.8, 3 (C08)")
 
+claim("C03",
+      "recurrence (stencil) extraction + conformance for both orientations; gather rule through composed table views; formula check with numeric refutation for the Boys wrapper",
+      "Same engine on the point-charge chain, run for both outcomes of the L_a >= L_b swap: the start value (Boys order = the m index, argument "
+      "p|P-C|^2, prefactor 2pi/p, exp(-mu|A-B|^2)), the six vertical and three horizontal stores conform to the Obara-Saika / transfer "
+      "recurrences for x, y, z with symbolic l; the contraction between them is once per shell with that shell's coefficients and "
+      "(2a/pi)^(3/4)(4a)^(l/2) at m = 0; through the two composed transposes the final selection indexes every table axis with the exponent "
+      "column of the shell and direction that axis counts, segment and charge axes by identity; the result is -q times that times both "
+      "shells' component normalisation, charge axis last and unreduced; both branches return (M_1, L_1, M_2, L_2, N), so every a/b pair is "
+      "exchanged consistently and un-swapped. boys_func is extracted as a closed form and equals 1F1(m+1/2;m+3/2;-x)/(2m+1) symbolically, "
+      "else it is refuted by 40-digit evaluation of the two formulas (not of gbasis) or left undecided. The nuclear attraction sums over the "
+      "charge axis with all arguments forwarded; every return passes through the recursion. Accuracy and hyp1f1's behaviour are not decided.",
+      _KERNEL_NOTE, "DESIGN.md 2.2, 3 (C03)")
+
+claim("C04",
+      "recurrence (stencil) extraction + conformance over six tables; axis-meaning propagation; gather rule; contraction normal form",
+      "Same engine on the electron-repulsion chain, both dispatch branches: the thirty stores of the six recursion tables conform to the start "
+      "value, the vertical, electron-transfer and horizontal (to shell 4 and to shell 2) recurrences for x, y and z; the meaning of every "
+      "table axis (shell, direction | component list | segment) is propagated through the initialisation stores, and each index array of "
+      "the four component selections must be the exponent column of exactly the shell/direction its axis counts, component-list axes "
+      "paired by identity; primitives are contracted once per shell with that shell's coefficients and exponent normalisation; the final "
+      "component normalisation covers all four shells once; the kernel returns (M_1, L_1, ..., M_4, L_4). The all-s closed form equals "
+      "the same start value at m = 0, contracted once per shell, and is dispatched exactly when all four l are 0. notation is validated and "
+      "the physicists' array is the chemists' with axes (0,2,1,3). The 1e-6-of-Schwarz accuracy and the electron transfer's "
+      "ill-conditioning are numerical and not decided.",
+      _KERNEL_NOTE, "DESIGN.md 2.2, 3 (C04)")
+
 na("C10", "quantifies over the numerical values of the transformation matrices (harmonicity, orthonormality, phases for every l<=10); "
           "no clause is visible in the shape of the code - deciding it means computing the matrices, which is not static analysis")
 na("C17", "positive semi-definiteness and Schwarz inequalities are numerical consequences of exact integrals; no structural clause exists")
